@@ -308,10 +308,37 @@ _orig_attr = symex.Exec.ev_Attribute
 _orig_spec_call = symex.Exec.spec_call
 
 
+def _is2d(v):
+    return v.k == "arr" and v.t.ndim == 2
+
+
 def _binop(self, op, a, b, n):
     if self.c.py_mode and getattr(self.c, "vectors", False):
         if a.k == "vec" or b.k == "vec" or isinstance(op, ast.MatMult):
             return vbinop(self, op, a, b, n)
+        # elementwise arithmetic of 2-d arrays (equal shapes: obligation `shape`) and of a 2-d array with a scalar
+        if isinstance(op, (ast.Add, ast.Sub, ast.Mult, ast.Div)) and (_is2d(a) or _is2d(b)) and \
+                all(_is2d(v) or v.k in ("int", "float", "bool") for v in (a, b)):
+            def kind_of(v):
+                if v.k == "arr":
+                    return "float" if (v.t.elem is not None and v.t.elem.kind == "float") else "int"
+                return "float" if v.k == "float" else "int"
+            ka, kb = kind_of(a), kind_of(b)
+
+            def term(v):
+                return v.t if v.k in ("float",) else (self.to_int(v) if v.k in ("int", "bool") else v)
+            probe = _elem_arith(self, op, z3.Real("pa!") if ka == "float" else z3.Int("pa!"), ka,
+                                z3.Real("pb!") if kb == "float" else z3.Int("pb!"), kb, n)[1]
+
+            def f(*xs):
+                it = iter(xs)
+                x = next(it) if a.k == "arr" else a
+                y = next(it) if b.k == "arr" else b
+                xt = (self.to_float(x) if ka == "float" else self.to_int(x))
+                yt = (self.to_float(y) if kb == "float" else self.to_int(y))
+                return _elem_arith(self, op, xt, ka, yt, kb, n)[0]
+            arrs = [v for v in (a, b) if v.k == "arr"]
+            return self.elementwise(f, *arrs, elem="FLOAT64TYPE_t" if probe == "float" else "INT64TYPE_t")
     return _orig_binop(self, op, a, b, n)
 
 
@@ -320,6 +347,17 @@ def _ev_call(self, n):
         fn = self.fname(n.func)
         if fn in ("np.arange", "numpy.arange"):
             return arange(self, n)
+        if fn in ("np.identity", "np.eye", "numpy.identity", "numpy.eye") and len(n.args) == 1 and not n.keywords:
+            # N x N float64 matrix with ones on the diagonal (negative N raises ValueError in NumPy: continue with N >= 0)
+            nn = self.to_int(self.ev(n.args[0]))
+            self.assume(nn >= 0)
+            et = symex.scalar_type("FLOAT64TYPE_t")
+            r = symex.ArrObj(f"eye_{next(self.n)}", et, 2, self.fm, shape=[nn, nn], fresh=True)
+            r.contig = True
+            self.objs[r.id] = r
+            qi, qj = z3.Int(f"ey0!{next(self.n)}"), z3.Int(f"ey1!{next(self.n)}")
+            self.heap[r.id] = z3.Lambda([qi], z3.Lambda([qj], z3.If(qi == qj, self.fm.lit(1), self.fm.lit(0))))
+            return Val("arr", r, symex.T("arr", elem=et, ndim=2))
         if fn in ("np.extract", "numpy.extract"):
             return extract(self, n)
         if fn in ("np.log", "numpy.log") and n.args:
@@ -328,10 +366,22 @@ def _ev_call(self, n):
                 return vlog(self, v)
             if v.k in ("int", "float"):
                 return Val("float", UF_LOG(self.to_float(v)), PYFLOAT)
-        if fn in ("np.sum", "numpy.sum") and len(n.args) == 1:
+        if fn in ("np.sum", "numpy.sum") and len(n.args) == 1 and not n.keywords:
             v = self.ev(n.args[0])
             if v.k == "vec" or (v.k == "arr" and v.t.ndim == 1):
                 return vsum(self, as_vec(self, v))
+        if fn in ("np.sum", "numpy.sum") and len(n.args) == 1 and len(n.keywords) == 1 and n.keywords[0].arg == "axis" \
+                and isinstance(n.keywords[0].value, ast.Constant) and n.keywords[0].value.value in (0, 1):
+            # np.sum(M, axis=0): element j = sum_i M[i, j]  (column sums);  axis=1: element j = sum_i M[j, i]  (row sums)
+            v = self.ev(n.args[0])
+            if v.k == "arr" and v.t.ndim == 2:
+                mat, ax = v.t, n.keywords[0].value.value
+                isf = mat.elem is not None and mat.elem.kind == "float"
+
+                def elem(j, mat=mat, ax=ax, isf=isf):
+                    i = z3.Int("fs!i")
+                    return mk_fsum(self.select(mat, [i, j] if ax == 0 else [j, i]), i, mat.shape[ax], isf, self)
+                return Val("vec", Vec(mat.shape[1 - ax], elem, "float" if isf else "int"))
         if fn in ("np.dot", "numpy.dot") and len(n.args) == 2:
             return vbinop(self, ast.MatMult(), self.ev(n.args[0]), self.ev(n.args[1]), n)
         if fn in ("np.nonzero", "numpy.nonzero") and len(n.args) == 1:
